@@ -128,6 +128,11 @@ def repo_frame(exc):
         if _is_repo_file(code.co_filename):
             mod = os.path.splitext(os.path.basename(code.co_filename))[0]
             last = "%s.%s" % (mod, code.co_name)
+        elif last is not None and os.path.abspath(code.co_filename).startswith(VERIF + os.sep):
+            # the code under test called back into a harness estimator which then failed:
+            # that is a harness problem, not a defect of the tree under test
+            if not getattr(exc, "vf_expected", False):
+                last = None
         tb = tb.tb_next
     return last
 
